@@ -5,7 +5,7 @@ OCAML = S.OCAML
 GO = S.GO
 FAMILIES = "startup,big,state".split(",")
 PROP = "props/C03.v"
-PROOFS = ["proofs/SupInv.v"]
+PROOFS = ["proofs/SupInv.v", "proofs/SupTrig.v", "proofs/SupGate.v", "proofs/SupResult.v"]
 
 
 def run(run):
